@@ -7,6 +7,7 @@ import (
 	"bytes"
 	"fmt"
 
+	"storj.io/drpc/drpcmigrate"
 	"storj.io/drpc/drpcwire"
 
 	"verifharness/payload"
@@ -527,6 +528,37 @@ func gen(tier string, seed uint64) []runner.Scenario {
 			}
 		})
 	}
+	// 6. inputs that open like something else: the byte strings other protocols (and the repository's
+	// own drpcmigrate header) start a connection with are frame headers too, and a parser of frames
+	// has no business recognising them. Each opener, cut at every length, continued by seeded bytes.
+	add("openers", func(a *acc) {
+		r := payload.SplitMix{S: payload.Hash(seed, 10)}
+		openers := []string{drpcmigrate.DRPCHeader, "GET / HTTP/1.1\r\n", "POST /", "PUT /", "HEAD /", "OPTIONS * ", "CONNECT ", "PRI * HTTP/2.0\r\n\r\nSM\r\n\r\n",
+			"\x16\x03\x01\x02\x00\x01\x00\x01\xfc\x03\x03", "\x16\x03\x03", "SSH-2.0-OpenSSH", "HTTP/1.1 400 Bad Request\r\n", "\x00\x00\x00\x00\x00", "AAAAAAAAAAAA==", "{\"jsonrpc\":", "<?xml ve", "EHLO ", "*1\r\n$4\r\nPING"}
+		reps := 3
+		if tier == "thorough" {
+			reps = 40
+		}
+		for _, op := range openers {
+			for rep := 0; rep < reps; rep++ {
+				b := []byte(op)
+				for j := 0; j < 400; j++ {
+					switch rep % 3 {
+					case 0:
+						b = append(b, byte(r.Next()))
+					case 1:
+						b = append(b, 0)
+					default:
+						b = append(b, byte('a'+r.Intn(26)))
+					}
+				}
+				for n := 0; n <= len(b); n++ {
+					a.diffParse(b[:n])
+				}
+			}
+		}
+		a.sample = map[string]interface{}{"batch": a.id, "openers": len(openers)}
+	})
 	return out
 }
 
@@ -534,7 +566,7 @@ func main() {
 	runner.Main(runner.Check{
 		Property: "C08",
 		Level:    "exploration",
-		Rule:     "differential monitor of drpcwire codec functions against the independent reference codec (refwire). Cases: (1) every frame in kind(64) x done x control x 13 boundary ids squared x 6 payload lengths, with every header prefix and 3 mutations of every header byte; (2) every byte string up to length 2 (quick) / 3 (thorough) and all strings of length 4-6 over a 7-byte alphabet; (3) varints: all 2^k, 2^k±1, over-long forms, seeded values; (4) SplitN over boundary sizes; (5) seeded frame-like strings with canonical, padded and over-long varints. A case is one (function, input) pair; batches partition the input space, so distinct_nontrivial is the number of inputs compared (inputs inside a seeded batch are drawn from a 64-bit PRNG stream, collisions negligible).",
+		Rule:     "differential monitor of drpcwire codec functions against the independent reference codec (refwire). Cases: (1) every frame in kind(64) x done x control x 13 boundary ids squared x 6 payload lengths, with every header prefix and 3 mutations of every header byte; (2) every byte string up to length 2 (quick) / 3 (thorough) and all strings of length 4-6 over a 7-byte alphabet; (3) varints: all 2^k, 2^k±1, over-long forms, seeded values; (4) SplitN over boundary sizes; (5) seeded frame-like strings with canonical, padded and over-long varints; (6) the opening bytes of other protocols and of the drpcmigrate header (18 openers), cut at every length and continued by seeded bytes. A case is one (function, input) pair; batches partition the input space, so distinct_nontrivial is the number of inputs compared (inputs inside a seeded batch are drawn from a 64-bit PRNG stream, collisions negligible).",
 		Assumptions: []string{
 			"the reference codec refwire encodes the wire description correctly (it is 60 lines and cross-checked against released v0.0.17 in C18)",
 			"the silent truncation of the 10th varint group to 64 bits is specified behaviour (identical in v0.0.17)",
